@@ -93,31 +93,38 @@ def shape : Token → Token
 
 /-- A name (an identifier, usable both as a binder and as a variable): a first code point that is
 alphabetic and not a lambda glyph, followed by alphanumeric code points; no code point is the dot
-(a binder name ends at the dot).
+(a binder name ends at the dot) and no code point is the glyph `λ` (a letter for Unicode, but it
+ends a variable name and opens a binder: `xλy.y` is `x`, `λy.`, `y`).
 
-Nothing else has to be said per character: inside a name the lexer only asks "alphanumeric?", and
-that an alphanumeric character (in particular a letter) is not whitespace, a parenthesis or a
-backslash is a fact about the classification (`ClsOk`).  (For Rust's classification the dot is not
-alphanumeric either, so there the last clause is redundant too: `wfName_of_unicode`.) -/
+Nothing else has to be said per character: inside a name the lexer only asks "alphanumeric and not
+`λ`?", and that an alphanumeric character (in particular a letter) is not whitespace, a parenthesis
+or a backslash is a fact about the classification (`ClsOk`).  (For Rust's classification the dot is
+not alphanumeric either, so there the dot clause is redundant: `wfName_of_unicode`.)
+
+(The code accepts a little more for BINDER names — after its first character a binder name may
+contain `λ`, pinned by a test of the crate — but such a binder cannot be referred to by any
+variable; the well-formed renderings are the natural ones, with one notion of name.) -/
 def WfName (cls : CharCls) (n : Name) : Prop :=
   (∃ c cs, n = c :: cs ∧ cls.isAlpha c = true ∧ isLam c = false ∧ ∀ d ∈ cs, cls.isAlnum d = true) ∧
-  ∀ d ∈ n, d ≠ cDot
+  (∀ d ∈ n, d ≠ cDot) ∧
+  ∀ d ∈ n, d ≠ cLambda
 
-/-- what may follow a variable name: the end of the input, or a character that is NOT alphanumeric.
-That character is not part of the name; it is lexed at top level like any other character (so it
-must be whitespace, a parenthesis, a glyph — `x\y.y` is `x`, `\y.`, `y` — …: this is what `Renders`
-requires of the remaining string). -/
+/-- what may follow a variable name: the end of the input, or a character that is NOT alphanumeric,
+or the glyph `λ` (which is alphanumeric for Unicode but ends a name all the same).  That character
+is not part of the name; it is lexed at top level like any other character (so it must be
+whitespace, a parenthesis, a glyph — `x\y.y` and `xλy.y` are `x`, `\y.`, `y` — …: this is what
+`Renders` requires of the remaining string). -/
 def NameEnd (cls : CharCls) : List Nat → Prop
   | [] => True
-  | c :: _ => cls.isAlnum c = false
+  | c :: _ => cls.isAlnum c = false ∨ c = cLambda
 
 /-- `Renders cls cts s`: the string `s` is a rendering of the named tokens `cts`.
 Arbitrary whitespace may surround tokens; a binder is `glyph ++ name ++ "."` with either glyph;
 a variable name is followed by the end of the input or by a character that is not alphanumeric
-(`NameEnd`), with which the rendering of the remaining tokens starts: whitespace, a parenthesis or
-the backslash glyph of a binder (under `ClsOk` none of them is alphanumeric, and a letter, which
-would start another name, is).  The other glyph `λ` is a letter for Rust and would continue the
-name, so it needs a separator. -/
+or is the glyph `λ` (`NameEnd`), with which the rendering of the remaining tokens starts: whitespace,
+a parenthesis or the glyph of a binder — either glyph: the backslash is not alphanumeric (`ClsOk`)
+and `λ`, although a letter for Rust, ends a name too; no separator is needed (a letter other than
+`λ`, which would start another name, is alphanumeric and continues the name). -/
 inductive Renders (cls : CharCls) : List CToken → List Nat → Prop
   | nil : Renders cls [] []
   | ws {c cts s} : cls.isWs c = true → Renders cls cts s → Renders cls cts (c :: s)
@@ -133,7 +140,8 @@ inductive Renders (cls : CharCls) : List CToken → List Nat → Prop
 * whitespace is neither a lambda glyph nor a parenthesis;
 * a letter is alphanumeric;
 * the delimiters — whitespace, the parentheses, the backslash — are not alphanumeric, i.e. they end
-  an identifier.  (`λ` IS alphanumeric; the dot matters only inside binders, see `WfName`.) -/
+  an identifier.  (`λ` IS alphanumeric for Rust; the lexer ends an identifier at it by an explicit
+  test, so nothing is assumed about it.  The dot matters only inside binders, see `WfName`.) -/
 def ClsOk (cls : CharCls) : Prop :=
   (∀ c, cls.isWs c = true → isLam c = false ∧ c ≠ cLparen ∧ c ≠ cRparen) ∧
   (∀ c, cls.isAlpha c = true → cls.isAlnum c = true) ∧
@@ -143,8 +151,8 @@ def ClsOk (cls : CharCls) : Prop :=
 /-- the last character of `s` (if any) is whitespace, a parenthesis or a dot: after a rendering
 with this property the lexer is back at top level (not inside a name: under `ClsOk` a well-formed
 name ends with an alphanumeric character other than the dot, which is none of these).  (The
-backslash, although it ends a name, is no alternative here: after it the lexer is inside a binder,
-and no rendering ends with a backslash since a binder ends with its dot.) -/
+glyphs, although they end a name, are no alternative here: after a glyph the lexer is inside a
+binder, and no rendering ends with a glyph since a binder ends with its dot.) -/
 def EndsTop (cls : CharCls) (s : List Nat) : Prop :=
   ∀ c, s.getLast? = some c → cls.isWs c = true ∨ c = cLparen ∨ c = cRparen ∨ c = cDot
 
